@@ -106,6 +106,12 @@ func hflush() templ.Component {
 	})
 }
 
+// scr: a script whose definition is empty (templ.RenderScriptItems writes nothing for it); its Call is what an on*
+// attribute writes (C02 fragment family)
+func scr(k string) templ.ComponentScript {
+	return templ.ComponentScript{Name: "scr_" + k, Function: "", Call: templ.SafeScript("scr", k), CallInline: templ.SafeScriptInline("scr", k)}
+}
+
 func ignore() templ.Component {
 	return templ.ComponentFunc(func(ctx context.Context, w io.Writer) error {
 		_, err := io.WriteString(w, "(i)")
@@ -655,7 +661,8 @@ func File(r *rng.R, o Opts) string {
 		sb.WriteString(p.sb.String())
 	}
 	if o.Fragment {
-		// fragment-only files (C02 proof layer) have no children slot: no Card template
+		// fragment files (C02 proof layer): the Card template in one spelling, no extra random draw
+		sb.WriteString("templ " + o.Prefix + "Card" + Sig + " {\n\t<section>{ children... }</section>\n}\n")
 	} else if r.Bool() {
 		sb.WriteString("templ " + o.Prefix + "Card" + Sig + " {\n\t<section>{ children... }</section>\n}\n")
 	} else {
